@@ -135,6 +135,13 @@ public class Q {
         return v(n, d);
     }
 
+    public static Value QPow(Value a, Value e) {
+        R x = r(a);
+        int k = i(e);
+        if (k >= 0) return v(x.n.pow(k), x.d.pow(k));
+        return v(x.d.pow(-k), x.n.pow(-k));
+    }
+
     public static Value QStr(Value a) { R x = r(a); return new StringValue(x.n + "/" + x.d); }
 
     public static Value QSci(Value a, Value digits) {
